@@ -112,7 +112,7 @@ static void rs_point (const pt_t *p)
 	const unsigned char *G;
 	char sig[200];
 	const char *cn = p->codec == 1 ? "rs28" : (p->m == 4 ? "rs2m4" : "rs2m8");
-	snprintf (g_case, sizeof g_case, "rs codec=%d m=%d k=%d n=%d len=%d", p->codec, p->m, k, n, len);
+	snprintf (g_case, sizeof g_case, "rs codec=%d m=%d k=%d n=%d len=%d align=%d", p->codec, p->m, k, n, len, p->prefix & 7);
 	memcpy (vf_slot (), g_case, sizeof g_case);
 	G = ref_G (m, k, n);
 	/* the reference generator itself must be n-independent: checked once per k by comparing a fresh (k,n) one */
@@ -122,7 +122,9 @@ static void rs_point (const pt_t *p)
 		if (memcmp (G2, G, (size_t) n * k)) viol ("MACHINERY", "kind=reference-generator-depends-on-n");
 		free (G2);
 	}
-	for (i = 0; i < k; i++) { src[i] = malloc ((size_t) len); pristine[i] = malloc ((size_t) len); fill_source (p, i, src[i]); memcpy (pristine[i], src[i], (size_t) len); }
+	int al = p->prefix & 7;	/* for RS points the 'prefix' field carries the buffer alignment under test */
+	void **srcblk = calloc ((size_t) k, sizeof (void *));
+	for (i = 0; i < k; i++) { srcblk[i] = malloc ((size_t) al + (size_t) len); src[i] = (unsigned char *) srcblk[i] + al; pristine[i] = malloc ((size_t) len); fill_source (p, i, src[i]); memcpy (pristine[i], src[i], (size_t) len); }
 	for (j = k; j < n; j++) firstout[j] = calloc (1, (size_t) len + 1);
 	for (mode = 0; mode < 2; mode++) {
 		of_session_t *s;
@@ -134,7 +136,7 @@ static void rs_point (const pt_t *p)
 		uint64_t mark; long bad0;
 #endif
 		for (i = 0; i < k; i++) tab[i] = src[i];
-		for (i = k; i < n; i++) { if (mode == 0) { mine[i] = malloc ((size_t) len); memset (mine[i], 0x5A, (size_t) len); tab[i] = mine[i]; } else tab[i] = NULL; }
+		for (i = k; i < n; i++) { if (mode == 0) { mine[i] = malloc ((size_t) al + (size_t) len + 8); memset (mine[i], 0x5A, (size_t) al + (size_t) len + 8); tab[i] = mine[i] + al; } else tab[i] = NULL; }
 #ifdef VF_TRK
 		mark = vf_trk_mark (); bad0 = vf_trk_badfree_count ();
 #endif
@@ -145,7 +147,13 @@ static void rs_point (const pt_t *p)
 			vf_stat_add (st_trans, 1);
 			if (st != OF_STATUS_OK) { snprintf (sig, sizeof sig, "codec=%s|call=build|kind=status-%d", cn, (int) st); viol (PROP, sig); break; }
 			if (!tab[j]) { snprintf (sig, sizeof sig, "codec=%s|call=build|kind=null-slot-left-null", cn); viol ("C06", sig); break; }
-			if (mode == 0 && tab[j] != mine[j]) { snprintf (sig, sizeof sig, "codec=%s|call=build|kind=application-slot-replaced", cn); viol ("C06", sig); }
+			if (mode == 0 && tab[j] != mine[j] + al) { snprintf (sig, sizeof sig, "codec=%s|call=build|kind=application-slot-replaced", cn); viol ("C06", sig); }
+			if (mode == 0) {	/* bytes around the repair buffer must be untouched (canaries; ASan covers the end of the block) */
+				int q, bad = 0;
+				for (q = 0; q < al; q++) if (mine[j][q] != 0x5A) bad = 1;
+				for (q = 0; q < 8; q++) if (mine[j][al + len + q] != 0x5A) bad = 1;
+				if (bad) { snprintf (sig, sizeof sig, "codec=%s|call=build|kind=wrote-outside-repair-buffer|align=%d", cn, al); viol ("C07", sig); viol ("C06", sig); }
+			}
 #ifdef VF_TRK
 			if (mode == 1 && (!vf_trk_is_live (tab[j]) || vf_trk_size (tab[j]) < (size_t) len || vf_trk_serial (tab[j]) < mark)) { snprintf (sig, sizeof sig, "codec=%s|call=build|kind=null-slot-not-a-fresh-library-block", cn); viol ("C06", sig); break; }
 #endif
@@ -198,7 +206,8 @@ static void rs_point (const pt_t *p)
 		}
 	}
 	for (j = 0; j < n; j++) free (firstout[j]);
-	for (i = 0; i < k; i++) { free (src[i]); free (pristine[i]); }
+	for (i = 0; i < k; i++) { free (srcblk[i]); free (pristine[i]); }
+	free (srcblk);
 	free (src); free (pristine); free (want); free (firstout);
 	vf_stat_add (st_points, 1);
 }
@@ -267,8 +276,8 @@ static void ldpc_point (const pt_t *p)
 		vf_stat_add (st_nullclaims, 1);
 		if (!even_cols) viol ("C15", "kind=claimed-null-but-a-source-column-of-the-rfc-matrix-has-odd-weight");
 	}
-	/* behavioural: encode the identity(+dense) payload, two slot modes */
-	{
+	/* behavioural: encode the identity(+dense) payload, two slot modes (structural comparison only for the very large points) */
+	if (k <= 2000) {
 		pt_t q = *p;
 		unsigned char **src = malloc (sizeof (void *) * (size_t) k), **pri = malloc (sizeof (void *) * (size_t) k), **first = calloc ((size_t) n, sizeof (void *));
 		q.codec = 3;
@@ -322,6 +331,7 @@ static void ldpc_point (const pt_t *p)
 		for (i = 0; i < k; i++) { free (src[i]); free (pri[i]); }
 		free (src); free (pri); free (first);
 	}
+	if (k > 2000) of_release_codec_instance (se);
 	bm_free (H);
 	vf_stat_add (st_points, 1);
 	{ char nm[48]; snprintf (nm, sizeof nm, "ldpc:null_last=%d:extra=%d:N1even=%d", enc_null ? 1 : 0, extra, !(p->N1 & 1)); vf_outcome (nm, 1); }
@@ -443,7 +453,7 @@ static void item_replay (long it, void *arg)
 	(void) it; (void) arg;
 	vf_slot_set_prop (PROP);
 	memset (&p, 0, sizeof p);
-	if (sscanf (cs, "rs codec=%d m=%d k=%d n=%d len=%d", &p.codec, &p.m, &p.k, &p.n, &p.len) == 5) { p.r = p.n - p.k; rs_point (&p); }
+	if (sscanf (cs, "rs codec=%d m=%d k=%d n=%d len=%d align=%d", &p.codec, &p.m, &p.k, &p.n, &p.len, &p.prefix) >= 5) { p.r = p.n - p.k; rs_point (&p); }
 	else if (sscanf (cs, "ldpc k=%d r=%d N1=%d seed=%d len=%d prefix=%d", &p.k, &p.r, &p.N1, &p.seed, &p.len, &p.prefix) == 6) { p.codec = 3; p.n = p.k + p.r; ldpc_point (&p); }
 	else if (sscanf (cs, "2d k=%d r=%d", &p.k, &p.r) == 2) { p.codec = 5; p.n = p.k + p.r; p2d_point (&p); }
 	else vf_viol ("MACHINERY", "kind=bad-replay-case", "%s", cs);
@@ -469,6 +479,10 @@ int main (int argc, char **argv)
 			if (thorough) { for (k = 1; k <= 254; k++) { add_pt (codec, 8, k, 255 - k, 0, 0, k + 4, 0); if (k < 254) add_pt (codec, 8, k, 1, 0, 0, k + 4, 0); } }
 			else for (i = 0; i < (int) (sizeof kq / sizeof kq[0]); i++) { k = kq[i]; add_pt (codec, 8, k, 255 - k, 0, 0, k + 4, 0); if (k < 254) add_pt (codec, 8, k, 1, 0, 0, k + 4, 0); }
 			for (n = 2; n <= (thorough ? 24 : 12); n++) for (k = 1; k < n; k++) add_pt (codec, 8, k, n - k, 0, 0, k + 4, 0);
+		}
+		{	/* short symbols at every buffer alignment (encoder side of C07/C06) */
+			int L, al;
+			for (L = 1; L <= 24; L++) for (al = 1; al < 8; al++) { add_pt (1, 8, 3, 2, 0, 0, L, al); add_pt (2, 8, 3, 2, 0, 0, L, al); add_pt (2, 4, 3, 2, 0, 0, L, al); add_pt (2, 4, 7, 8, 0, 0, L, al); }
 		}
 		for (i = 0; i < (int) (sizeof lens / sizeof lens[0]); i++) { add_pt (1, 8, 5, 4, 0, 0, lens[i], 0); add_pt (2, 8, 5, 4, 0, 0, lens[i], 0); add_pt (2, 4, 5, 4, 0, 0, lens[i], 0); add_pt (2, 4, 14, 1, 0, 0, lens[i], 0); add_pt (1, 8, 17, 3, 0, 0, lens[i], 0); }
 	} else if (!strcmp (mode, "2d")) {
@@ -498,6 +512,13 @@ int main (int argc, char **argv)
 							add_pt (3, 0, k, r, N1, thorough ? seeds_t[si] : seeds_q[si], k + 2, pf);
 						}
 				}
+			}
+			/* very large blocks draw with large maxv (up to N1*k = 140000): many seeds, structural comparison only.
+			 * Reached by no test; a PRNG scaling that differs from the RFC expression in the last unit shows here. */
+			for (s = 1; s <= (thorough ? 40 : 6); s++) {
+				add_pt (3, 0, 20000, 10000, 7, s * 7919 % 1000 + s, 8, 0);
+				add_pt (3, 0, 10000, 5000, 3 + s % 3, s + 1000, 8, 0);
+				if (thorough || s <= 3) add_pt (3, 0, 1000, 500, 5 + s % 3, s * 31 + 100, 1002, 0);
 			}
 		}
 	}
